@@ -87,6 +87,13 @@ def meta_case(idx):
         if len(set(r)) != 1: v.append(("entry:meta-differs:metavalue_for_key", "metavalue_for_key(%r): variants return %r for %r" % (k, r, doc), case_d)); break
     return (pmap.h64(doc), v, dict(judged=1))
 
+TRANS_DOCS = [b"{{t.txt}}\n", b"a {{w.*}} b {{missing.txt}}\n", b"Title: x\n\n{{t.txt}} {{sub/deep.gif}} {{w.tex}}\n", b"transclude base: sub\n\n{{deep.gif}} {{../t.txt}}\n", b"no markers\n", b"{{TOC}} {{w.*}}{{w.*}}\n"]
+def trans_case(idx):
+    doc = TRANS_DOCS[idx]; v = []; case_d = dict(src=doc.decode("latin-1"))
+    r = [sorted(mmd.manifest(doc, ASSETS.encode(), (ASSETS + "/top.txt").encode(), f)) for f in (0, 1, 2)]
+    if not (r[0] == r[1] == r[2]): v.append(("entry:differs:transclusion_manifest", "string/DString/engine variants list %r for %r" % (r, doc), case_d))
+    return (pmap.h64(doc), v, dict(judged=1))
+
 def cli_leg(rep, tier):
     """CLI to stdout, with -o, and with -b must equal mmd_d_string_convert_to_data for flag sets the CLI can express"""
     t0 = time.time(); cli = build.build_cli(); srcs = sources(tier)
@@ -162,6 +169,8 @@ def run(tier):
     pmap.fold(rep, "language-axis", n, res, "%d quote/localisation documents x 13 formats x 6 extension sets x 7 languages x 9 API variants" % len(LANGDOCS))
     res = pmap.pmap(len(META_DOCS), meta_case, workers=4)
     pmap.fold(rep, "metadata-families", len(META_DOCS), res, "has_metadata / metadata_keys / metavalue_for_key across the three API families")
+    res = pmap.pmap(len(TRANS_DOCS), trans_case, workers=2)
+    pmap.fold(rep, "manifest-families", len(TRANS_DOCS), res, "mmd_string_/mmd_d_string_/mmd_engine_transclusion_manifest on documents with plain, wildcard, nested, missing and base-relative markers")
     cli_leg(rep, tier)
     rep.add_sample(dict(src=srcs[5].decode("latin-1"), variants=9, formats=13))
     rep.add_sample(dict(src=srcs[len(srcs) // 2][:200].decode("latin-1")))
